@@ -134,7 +134,7 @@ func c17HandshakeCase(rt *rapid.T, rec *vt.Rec) {
 	select {
 	case err = <-readErr:
 	case <-ctx.Done():
-		err = fmt.Errorf("nothing more arrives (20 s)")
+		err = fmt.Errorf("nothing more arrives: %v", ctx.Err())
 		codec.Close()
 		<-readErr
 	}
